@@ -352,6 +352,12 @@ class World:
             for w in list(getattr(c.svc, "stop_waiters", [d])):
                 if not w.called:
                     w.callback(None)
+                # an exception inside one of the callbacks hung on the stop Deferred is an internal failure too (Twisted
+                # would only log it as "Unhandled error in Deferred")
+                if isinstance(getattr(w, "result", None), failure.Failure):
+                    f = w.result
+                    w.addErrback(lambda _f: None)
+                    f.raiseException()
         err = self._guard(c, fire)
         return err or r
 
@@ -390,6 +396,16 @@ class World:
         from .. import LOGGED
         n0 = len(LOGGED)
         self.clock.advance(0)
+        # a failure inside a callback chain that continued in this turn on one of the stop Deferreds (which this fake
+        # service, unlike Twisted's, keeps referenced, so it would never be logged as "Unhandled error in Deferred")
+        for w in getattr(c.svc, "stop_waiters", []):
+            if w.called and isinstance(getattr(w, "result", None), failure.Failure):
+                f = w.result
+                w.addErrback(lambda _f: None)
+                name = type(f.value).__name__
+                from ..mailbox_corr import exn_name
+                c.internal.append((name, "in a callback on the stopService() Deferred", exn_name(f.value)))
+                return name
         if len(LOGGED) > n0:
             ev = LOGGED[-1]
             f = ev.get("log_failure") or ev.get("failure")
